@@ -4,6 +4,7 @@ use crate::engine::{Ctx, Mode, Tier, Verdict};
 pub mod common;
 pub mod c01;
 pub mod c02;
+pub mod c03;
 pub mod c18;
 
 pub struct Prop {
@@ -16,6 +17,7 @@ pub fn all() -> Vec<Prop> {
     vec![
         Prop { id: "C01", level: "exploration", run: c01::run },
         Prop { id: "C02", level: "exploration", run: c02::run },
+        Prop { id: "C03", level: "exploration", run: c03::run },
         Prop { id: "C18", level: "exploration", run: c18::run },
     ]
 }
